@@ -23,6 +23,8 @@ type protoX struct {
 	Field string  `json:"field"`
 	Raw   []int   `json:"raw"`
 	Vals  [][]int `json:"vals"`
+	// BigDims[i], when non-empty, replaces Dims[i] by the little-endian base-65536 number it spells (dims beyond TLC's integers)
+	BigDims [][]int `json:"bigdims"`
 }
 
 func le(b []int) uint64 {
@@ -34,7 +36,16 @@ func le(b []int) uint64 {
 }
 
 func mkProtoX(x protoX, name string) *onnx.TensorProto {
-	tp := &onnx.TensorProto{Name: name, DataType: x.Code, Dims: x.Dims}
+	tp := &onnx.TensorProto{Name: name, DataType: x.Code, Dims: append([]int64(nil), x.Dims...)}
+	for i, digits := range x.BigDims {
+		if len(digits) > 0 && i < len(tp.Dims) {
+			var u uint64
+			for k := len(digits) - 1; k >= 0; k-- {
+				u = u<<16 | uint64(uint16(digits[k]))
+			}
+			tp.Dims[i] = int64(u)
+		}
+	}
 	if len(x.Raw) > 0 {
 		tp.RawData = make([]byte, len(x.Raw))
 		for i, v := range x.Raw {
